@@ -270,7 +270,7 @@ fn positions_inside(h: &History) -> bool {
     let mut latest: Vec<Option<String>> = vec![None; h.uris.len()];
     for s in &h.steps {
         match s {
-            Step::Open { doc, text } | Step::Change { doc, text } => latest[*doc] = Some(text.clone()),
+            Step::Open { doc, text } | Step::Change { doc, text, .. } => latest[*doc] = Some(text.clone()),
             Step::Close { doc } => latest[*doc] = None,
             Step::Req { doc, line, .. } => {
                 let Some(t) = &latest[*doc] else { return false };
@@ -396,7 +396,7 @@ fn run(tier: Tier, seed: u64) -> i32 {
             "history_index": hi,
             "steps": h.steps.iter().map(|s| match s {
                 Step::Open{doc, text} => format!("didOpen doc{doc} ({} bytes: {:?}...)", text.len(), text.chars().take(40).collect::<String>()),
-                Step::Change{doc, text} => format!("didChange doc{doc} ({} bytes: {:?}...)", text.len(), text.chars().take(40).collect::<String>()),
+                Step::Change{doc, text, ..} => format!("didChange doc{doc} ({} bytes: {:?}...)", text.len(), text.chars().take(40).collect::<String>()),
                 Step::Close{doc} => format!("didClose doc{doc}"),
                 Step::Req{doc, q, line, ch, class} => format!("{} doc{doc} @{line}:{ch} ({class:?})", q.name()),
             }).collect::<Vec<_>>(),
@@ -520,11 +520,125 @@ fn replay(file: &str) -> i32 {
     }
 }
 
+fn leaktest(args: &[String]) {
+            // diagnostic: repeat one history under one scheduler and print the resident set size
+            vcore::quiet_panics();
+            prepare_scratch();
+            let root = Rng::new(1);
+            let pool = TextPool::build(&mut root.child("pool", 0), 50);
+            let h = generate(&mut root.child("history", 3), &pool, 25);
+            let msgs = h.to_messages();
+            let rss = || std::fs::read_to_string("/proc/self/statm").ok().and_then(|s| s.split_whitespace().nth(1).and_then(|x| x.parse::<usize>().ok())).unwrap_or(0) * 4 / 1024;
+            let mode = args.get(2).cloned().unwrap_or_default();
+            if mode == "texts" || mode == "texts_judge" {
+                // one two-step session per distinct text, no memo
+                let pool = TextPool::build(&mut root.child("pool", 0), 600);
+                for i in 0..6000usize {
+                    let text = format!("{}\n// {i}\n", pool.texts[i % pool.texts.len()]);
+                    let hh = History { uris: doc_uris(), steps: vec![Step::Open { doc: 0, text }, Step::Req { doc: 0, q: Query::Completion, line: 0, ch: 0, class: PosClass::Inside }], abrupt_end: false };
+                    let out = execute(&hh.to_messages(), &SchedSpec::RoundRobin);
+                    if mode == "texts_judge" {
+                        let mut js = JudgeStats { requests_compared: 0, diagnostics_compared: 0, ref_failed: 0, mid_surrogate_skipped: 0, formatting_checked: 0, defref_checked: 0, hover_checked: 0 };
+                        let _ = judge(&hh, &out, &mut js);
+                    }
+                    if i % 500 == 0 {
+                        println!("{i} texts: rss {} MiB", rss());
+                    }
+                }
+                return;
+            }
+            if mode == "fmt_ok" || mode == "fmt_panic" {
+                let text = if mode == "fmt_ok" { "token A B;\nstart s;\ns: A [B];\n".to_string() } else { "foo:\n".to_string() };
+                for i in 0..200000usize {
+                    let t = text.clone();
+                    let _ = std::panic::catch_unwind(move || {
+                        let mut diags = vec![];
+                        let cst = lelwel::frontend::parser::Parser::new(&t, &mut diags).parse(&mut diags);
+                        lelwel::backend::format::format(&cst)
+                    });
+                    if i % 20000 == 0 {
+                        println!("{i} format calls: rss {} MiB", rss());
+                    }
+                }
+                return;
+            }
+            if mode == "changes" {
+                let pool = TextPool::build(&mut root.child("pool", 0), 600);
+                for i in 0..4000usize {
+                    let mut steps = vec![Step::Open { doc: 0, text: pool.texts[i % pool.texts.len()].clone() }];
+                    for k in 0..10 {
+                        steps.push(Step::Change { doc: 0, text: pool.texts[(i * 7 + k) % pool.texts.len()].clone(), earlier: vec![] });
+                        steps.push(Step::Req { doc: 0, q: if std::env::var("LEAK_FMT").is_ok() { Query::Formatting } else { Query::Hover }, line: 0, ch: 0, class: PosClass::Inside });
+                    }
+                    let hh = History { uris: doc_uris(), steps, abrupt_end: false };
+                    let _ = execute(&hh.to_messages(), &SchedSpec::RoundRobin);
+                    if i % 500 == 0 {
+                        println!("{i} sessions: rss {} MiB", rss());
+                    }
+                }
+                return;
+            }
+            if mode == "hist" {
+                let pool = TextPool::build(&mut root.child("pool", 0), 600);
+                let mut stats = Stats::default();
+                let mut found = vec![];
+                for hi in 0..3000usize {
+                    let mut h = generate(&mut root.child("history", hi as u64), &pool, 25);
+                    if std::env::var("LEAK_NOABRUPT").is_ok() {
+                        h.abrupt_end = false;
+                    }
+                    if let Ok(k) = std::env::var("LEAK_DROPQ") {
+                        h.steps.retain(|s| !matches!(s, Step::Req { q, .. } if q.name() == k));
+                    }
+                    if std::env::var("LEAK_ONEDOC").is_ok() {
+                        h.steps.retain(|s| s.doc() == 0);
+                        if !h.valid() { continue; }
+                    }
+                    if std::env::var("LEAK_NOFORMAT").is_ok() {
+                        h.steps.retain(|s| !matches!(s, Step::Req { q: Query::Formatting, .. }));
+                    }
+                    let mut specs = sched_specs(&mut root.child("schedules", hi as u64), 8);
+                    match std::env::var("LEAK_SPECS").as_deref() {
+                        Ok("rr") => specs.retain(|s| matches!(s, SchedSpec::RoundRobin)),
+                        Ok("random") => specs.retain(|s| matches!(s, SchedSpec::Random(_))),
+                        Ok("pct") => specs.retain(|s| matches!(s, SchedSpec::Pct(..))),
+                        _ => {}
+                    }
+                    if std::env::var("LEAK_NOJUDGE").is_ok() {
+                        for sp in &specs {
+                            let _ = execute(&h.to_messages(), sp);
+                        }
+                    } else {
+                        run_history(hi, &h, &specs, &mut stats, &mut found);
+                    }
+                    if hi % 100 == 0 {
+                        println!("{hi} histories: rss {} MiB, refs {}", rss(), REF_EVALS.load(std::sync::atomic::Ordering::Relaxed));
+                    }
+                }
+                return;
+            }
+            for i in 0..20000u64 {
+                let spec = if mode == "rr" { SchedSpec::RoundRobin } else { SchedSpec::Random(i) };
+                let out = execute(&msgs, &spec);
+                if mode == "judge" {
+                    let mut js = JudgeStats { requests_compared: 0, diagnostics_compared: 0, ref_failed: 0, mid_surrogate_skipped: 0, formatting_checked: 0, defref_checked: 0, hover_checked: 0 };
+                    let _ = judge(&h, &out, &mut js);
+                }
+                if i % 2000 == 0 {
+                    println!("{i} executions: rss {} MiB", rss());
+                }
+            }
+}
+
 fn main() {
     let args: Vec<String> = std::env::args().collect();
     let code = match args.get(1).map(|s| s.as_str()) {
         Some("run") => run(vcore::tier_from_env(), vcore::seed_from_env()),
         Some("replay") => replay(&args[2]),
+        Some("leaktest") => {
+            leaktest(&args);
+            0
+        }
         _ => {
             eprintln!("usage: lspsim run C20 | replay <file>");
             2
